@@ -284,7 +284,7 @@ pub fn run(b: &mut Built, op: &Op, pfx: &str, env: Envelope) -> StepOut {
                 Err(p) if p.contains("SYMX") => panic!("{p}"),
                 Err(p) => Tx::Panic(p),
                 Ok(Err(e)) => Tx::Err(e.to_string()),
-                Ok(Ok(_)) => Tx::Ok { msgs: vec![], attrs: vec![] },
+                Ok(Ok(_)) => Tx::Ok { msgs: vec![], attrs: vec![], hooks: vec![] },
             }
         }
         Op::Breaker { sender } => {
@@ -337,7 +337,7 @@ pub fn run(b: &mut Built, op: &Op, pfx: &str, env: Envelope) -> StepOut {
                 Funds::Lst => b.ghost.don_l = t::add(&b.ghost.don_l, &t::ut(d)),
                 _ => {}
             }
-            Tx::Ok { msgs: vec![], attrs: vec![] }
+            Tx::Ok { msgs: vec![], attrs: vec![], hooks: vec![] }
         }
         Op::AddValidator { sender, which } => {
             let s = who_addr(&who, sender);
@@ -732,6 +732,16 @@ pub fn post_op(cx: &Ctx, b: &Built, op: &Op, s: &StepOut) {
         Tx::Ok { msgs, .. } => msgs,
         _ => &[],
     };
+    // atomicity: only IBC transfers may carry a reply hook; any other message must be a plain message whose
+    // failure reverts the whole transaction (a failure-tolerant payment could be skipped while the books say it was made)
+    if let Tx::Ok { msgs, hooks, .. } = &s.tx {
+        for (m, h) in msgs.iter().zip(hooks.iter()) {
+            if !matches!(m, Emitted::Transfer { .. }) && h.is_some() {
+                let prop = if matches!(op, Op::Rewards { .. } | Op::FeeWithdraw { .. }) { "C11" } else if matches!(op, Op::Withdraw { .. }) { "C02" } else { "C03" };
+                claim(f, &format!("{prop}:payments and token-factory messages are plain messages (their failure reverts the operation)"), false);
+            }
+        }
+    }
     match op {
         Op::Stake { sender, mint_to, flag, expected, funds, .. } => {
             let a = input("amt");
